@@ -207,6 +207,42 @@ func (f *FuncCtx) specIdent(name string, env *Env) (Val, bool) {
 			}
 		}
 	}
+	if !sc.nolocals && sc.pos != token.NoPos && f.C != nil && len(f.C.Alias[name]) > 0 {
+		// names.go: the recorded local was renamed in this scope while its name lives on in another one
+		if inner := f.Pkg.Types.Scope().Innermost(sc.pos); inner != nil {
+			var best types.Object
+			for _, alt := range f.C.Alias[name] {
+				if strings.ContainsAny(alt, "$([") {
+					// the recorded loop variable read through the loop (ranged expression at the iteration ghost)
+					if e, err := parseSpec(renameText(alt, f.C.renameMap)); err == nil {
+						return f.specExpr(e, env), true
+					}
+					continue
+				}
+				if at := strings.Index(alt, "@"); at > 0 {
+					// a particular declaration (several locals may share the name): it must be in scope here
+					var pos int
+					fmt.Sscanf(alt[at+1:], "%d", &pos)
+					for o := range env.vars {
+						if o.Name() == alt[:at] && int(o.Pos()) == pos && o.Parent() != nil && o.Parent().Contains(sc.pos) {
+							if best == nil || o.Pos() > best.Pos() {
+								best = o
+							}
+						}
+					}
+					continue
+				}
+				if _, o := inner.LookupParent(alt, sc.pos); o != nil {
+					if _, ok := env.vars[o]; ok && (best == nil || o.Pos() > best.Pos()) {
+						best = o
+					}
+				}
+			}
+			if best != nil {
+				return env.vars[best], true
+			}
+		}
+	}
 	if !sc.nolocals {
 		// fallback: a variable of that name declared earlier in the function (e.g. in an if-init whose scope has ended)
 		var best types.Object
